@@ -16,6 +16,8 @@ import (
 	"fmt"
 	"sort"
 	"strings"
+	"sync/atomic"
+	"time"
 
 	"github.com/M2MGateway/go-smpp/pdu"
 )
@@ -125,6 +127,8 @@ type combineObs struct {
 	Trace    [][][]int // per input: callbacks, each a list of ids (arrival position, 0 = nil, -1 = unknown pointer)
 	PanicAt  int       // -1: none
 	PanicMsg string
+	Hung     bool   // the call for input PanicAt+1 never returned (PanicAt/PanicMsg are set: every "did not return normally" path applies)
+	Skipped  bool   // not run: the run had already met maxStalls calls that never returned
 	Mutated  string // non-empty: a slice handed to the callback did not keep its content until the end of the run
 }
 
@@ -136,8 +140,23 @@ func runCombine(table []segVal, hist []int) combineObs {
 	return runCombinePDUs(ps)
 }
 
-// runCombinePDUs feeds the PDUs, in order, to a fresh combiner.
+// runCombinePDUs feeds the PDUs, in order, to a fresh combiner — under the watchdog (c11_watch.go): a call
+// that does not return ends the history there (the combiner instance and its goroutine are abandoned).
 func runCombinePDUs(ps []*pdu.DeliverSM) combineObs {
+	if stallsExhausted() {
+		return combineObs{PanicAt: -1, Skipped: true, Trace: make([][][]int, len(ps))}
+	}
+	var progress int64
+	var obs combineObs
+	hung, at, waited := stallWatch(&progress, func() { obs = runCombineInner(ps, &progress) })
+	if hung {
+		return combineObs{PanicAt: int(at), Hung: true,
+			PanicMsg: fmt.Sprintf("the call for input %d had not returned after %v (the inputs before it returned at once)", at+1, waited.Round(100*time.Millisecond))}
+	}
+	return obs
+}
+
+func runCombineInner(ps []*pdu.DeliverSM, progress *int64) combineObs {
 	obs := combineObs{PanicAt: -1}
 	ids := map[*pdu.DeliverSM]int{}
 	var cur [][]int
@@ -173,6 +192,7 @@ func runCombinePDUs(ps []*pdu.DeliverSM) combineObs {
 			return obs
 		}
 		obs.Trace = append(obs.Trace, cur)
+		atomic.AddInt64(progress, 1)
 	}
 	for _, k := range kept {
 		for i := range k.snap {
@@ -256,8 +276,8 @@ type msgKey struct {
 
 type epoch struct {
 	total  int
-	wide   bool        // 16-bit reference form
-	latest map[int]int // sequence number -> id of the most recent segment carrying it
+	wide   bool                 // 16-bit reference form
+	latest map[int]int          // sequence number -> id of the most recent segment carrying it
 	all    map[int]map[int]bool // sequence number -> ids of all segments of this epoch carrying it
 }
 
@@ -282,6 +302,13 @@ type judgeInfo struct {
 }
 
 func judgeFull(table []segVal, hist []int, obs combineObs) (class, what, observed, required string, info judgeInfo) {
+	if obs.Skipped {
+		info.lenient = true
+		return "", "", "", "", info
+	}
+	if obs.Hung {
+		return "combine/never-returns", "a call of the combiner did not return", obs.PanicMsg, "returns normally", info
+	}
 	if obs.PanicAt >= 0 {
 		return "combine/panic", "the combiner panicked", fmt.Sprintf("panic at input %d: %s", obs.PanicAt+1, obs.PanicMsg), "returns normally", info
 	}
@@ -523,7 +550,7 @@ func keySets() map[string][]msgID {
 		// source number against the destination TON that follows it
 		"digit-prefix-src-vs-ton": {{a(1, 1, "555"), a(11, 1, "9"), 7, 0}, {a(1, 1, "5551"), a(1, 1, "9"), 7, 0}, {a(1, 1, "55511"), a(0, 1, "9"), 7, 0}, {a(1, 1, "5"), a(5, 1, "9"), 7, 0}},
 		// numbers containing the separator Sprint inserts between integers
-		"space-in-number": {{a(1, 1, "7 1"), a(1, 1, "8"), 9, 0}, {a(1, 17, " 1"), a(1, 1, "8"), 9, 0}, {a(1, 1, "7"), a(1, 1, "1 18"), 9, 0}, {a(1, 1, "7 11"), a(0, 1, "8"), 9, 0}},
+		"space-in-number":         {{a(1, 1, "7 1"), a(1, 1, "8"), 9, 0}, {a(1, 17, " 1"), a(1, 1, "8"), 9, 0}, {a(1, 1, "7"), a(1, 1, "1 18"), 9, 0}, {a(1, 1, "7 11"), a(0, 1, "8"), 9, 0}},
 		"equal-ref-different-dst": {{a(1, 1, "100"), a(1, 1, "200"), 77, 0}, {a(1, 1, "100"), a(1, 1, "201"), 77, 0}, {a(1, 1, "100"), a(1, 1, "20"), 77, 0}, {a(1, 1, "100"), a(1, 1, "2000"), 77, 0}},
 		"equal-ref-different-src": {{a(1, 1, "100"), a(1, 1, "200"), 77, 1}, {a(1, 1, "101"), a(1, 1, "200"), 77, 1}, {a(2, 1, "100"), a(1, 1, "200"), 77, 1}, {a(1, 2, "100"), a(1, 1, "200"), 77, 1}},
 		"different-ton-npi":       {{a(0, 0, "42"), a(0, 0, "43"), 1, 0}, {a(0, 0, "42"), a(0, 1, "43"), 1, 0}, {a(0, 0, "42"), a(1, 0, "43"), 1, 0}, {a(1, 0, "42"), a(0, 0, "43"), 1, 0}},
@@ -639,7 +666,7 @@ func c10One(r *Run, table []segVal, tkey string, hist []int, bucket string, b *c
 	if class != "" {
 		r.Fail(class, what, histInput(table, hist), observed, required)
 	}
-	if !modelCase {
+	if !modelCase || obs.Skipped {
 		return obs
 	}
 	if info.lenient && obs.PanicAt < 0 {
@@ -678,7 +705,7 @@ func tableKey(t []segVal) string {
 // what the single-message reference combiner and the set-style specification
 // do on that sub-history.
 func referenceCases(r *Run, table []segVal, hist []int, obs combineObs) {
-	if obs.PanicAt >= 0 {
+	if obs.PanicAt >= 0 || obs.Skipped {
 		return
 	}
 	if _, _, _, _, info := judgeFull(table, hist, obs); info.lenient {
